@@ -238,6 +238,11 @@ func runC08(c *vh.Ctx) {
 			})))
 		}
 	}
+	// corner: `-`(0) as a receiver is written `(-0).foo` and read back as `0.foo` (the `-0` instability, not a receiver defect)
+	add("builder", "corner:neg-zero-receiver", sg.PolicyWith(ast.NodeTypeAccess{StrOpNode: ast.StrOpNode{
+		Arg: ast.NodeTypeNegate{UnaryNode: ast.UnaryNode{Arg: ast.NodeValue{Value: types.Long(0)}}}, Value: "foo"}}))
+	add("builder", "corner:neg-one-receiver", sg.PolicyWith(ast.NodeTypeAccess{StrOpNode: ast.StrOpNode{
+		Arg: ast.NodeTypeNegate{UnaryNode: ast.UnaryNode{Arg: ast.NodeValue{Value: types.Long(1)}}}, Value: "foo"}}))
 	// corner: method-style extension call without receiver (JSON-decodable)
 	add("builder", "corner:method-no-receiver", sg.PolicyWith(ast.NodeTypeExtensionCall{Name: "isIpv4"}))
 
